@@ -16,7 +16,7 @@ import (
 func init() { register("C19", true, runC19) }
 
 func runC19(c *Check) {
-	c.Explanation = "Decides the table, atomic-replace and serialisation clauses of C19 for every history, crash point and interleaving: the option tables agree (URL parameters name existing options, are pairwise distinct, and every option that is saved in settings.json also has a URL parameter, so a menu entry restores it; resetTransient covers exactly the options that are not saved) (R1); the settings file is never opened for in-place writing: the only write path is a temporary file created in the same directory, fully written and closed, then renamed over the final name (R2); the read-modify-write of editSettings runs entirely under one package-level mutex (R3); every loaded configuration gets its transient fields reset, applyURL ignores empty values and makeURL elides values equal to the computed default (R4). Also: floats are written in their exact 64-bit form (R5); the edit function of editSettings uses only the settings read under the lock (R6). Not decided: fsync-level durability, races between different pprof processes, JSON fidelity of individual values."
+	c.Explanation = "Decides the table, atomic-replace and serialisation clauses of C19 for every history, crash point and interleaving: the option tables agree (URL parameters name existing options, are pairwise distinct, and every option that is saved in settings.json also has a URL parameter, so a menu entry restores it; resetTransient covers exactly the options that are not saved) (R1); the settings file is never opened for in-place writing: the only write path is a temporary file created in the same directory, fully written and closed, then renamed over the final name (R2); the read-modify-write of editSettings runs entirely under one package-level mutex (R3); every loaded configuration gets its transient fields reset, applyURL ignores empty values and makeURL elides values equal to the computed default (R4). Also: floats are written in their exact 64-bit form (R5); the edit function of editSettings uses only the settings read under the lock (R6). Round-I additions: a named configuration is saved from a copy of the configuration in force plus the request. Not decided: fsync-level durability, races between different pprof processes, JSON fidelity of individual values."
 	c.configTables()
 	c.settingsWrites()
 	c.settingsLock()
